@@ -116,7 +116,10 @@ def run(rep):
     if len(byid) != len(items):
         raise Machinery("program ids are not unique")
     obs = {it["id"]: [] for it in items}
-    cases = [dict((k, v) for k, v in it.items() if k in ("id", "prog", "src", "mode", "ml")) for it in items]
+    # order inside a per-seed process: the programs that fail come last, so that a program's first observation (seed 0) is
+    # made before anything has failed in that process
+    cases = [dict((k, v) for k, v in it.items() if k in ("id", "prog", "src", "mode", "ml"))
+             for it in sorted(items, key=lambda it: it["fam"] == "FF")]
     for h in hists:
         for k in h["items"]:
             if k not in byid:
@@ -125,12 +128,19 @@ def run(rep):
     def wall_hang(r):
         return r["out"].get("o") == "hang" and "wall" in str(r["out"].get("why", ""))
 
+    # the families whose subject is the history (FF / FV / TX) run under the first 16 hash seeds only
+    hist_fams = {it["id"] for it in items if it["fam"] in ("FF", "FV", "TX")}
+    cases16 = cases if nseeds <= 16 else [c for c in cases if c["id"] not in hist_fams]
+
     def one_seed(seed):
         # each hash seed in a process of its own; the virtual clock starts at 0 for every evaluation
-        rs = engine.run_cases(rep.pid, cases, driver=DRIVER, hashseed=str(seed), tag="eng_seed%d" % seed,
+        mine = cases if seed < 16 else cases16
+        rs = engine.run_cases(rep.pid, mine, driver=DRIVER, hashseed=str(seed), tag="eng_seed%d" % seed,
                               procs=1 if nseeds >= 16 else None)
+        if len(rs) != len(mine):
+            raise Machinery("seed %d: %d results for %d cases" % (seed, len(rs), len(mine)))
         # a wall-clock watchdog verdict (overloaded machine) is re-run alone before it counts (DESIGN 3.4)
-        again = [dict(c, wall=900.0) for c in cases if any(r["id"] == c["id"] and wall_hang(r) for r in rs)]
+        again = [dict(c, wall=900.0) for c in mine if any(r["id"] == c["id"] and wall_hang(r) for r in rs)]
         if again:
             redo = {r["id"]: r for r in engine.run_cases(rep.pid, again, driver=DRIVER, hashseed=str(seed),
                                                          tag="eng_seed%d_rerun" % seed, procs=1)}
@@ -162,7 +172,7 @@ def run(rep):
 
     t0 = time.time()
     dropped = 0
-    with ThreadPoolExecutor(max_workers=int(os.environ.get("C15_PROCS", "18"))) as ex:
+    with ThreadPoolExecutor(max_workers=int(os.environ.get("C15_PROCS", "26"))) as ex:
         futs = [ex.submit(one_batch, bc) for bc in batches] + [ex.submit(one_seed, s) for s in range(nseeds)] \
             + [ex.submit(one_group, g) for g in range(ngroups)]
         done = [f.result() for f in futs]
@@ -170,8 +180,6 @@ def run(rep):
     nhist_obs = 0
     for kind, what, rs in sorted(done, key=lambda d: (d[0] != "seed", str(d[1]) if d[0] != "seed" else "%04d" % d[1])):
         if kind == "seed":
-            if len(rs) != len(cases):
-                raise Machinery("seed %d: %d results for %d cases" % (what, len(rs), len(cases)))
             for r in rs:
                 obs[r["id"]].append({"src": "seed%d" % what, "log": r["log"], "out": r["out"], "hl": r["hl"], "lay": r["lay"]})
         else:
